@@ -10,6 +10,7 @@ use std::time::Instant;
 
 use serde_json::{json, Value};
 
+pub mod alloc;
 pub mod src;
 pub use src::Src;
 
